@@ -272,9 +272,8 @@ Tampered(m) ==
   \cup (IF m.t \in {"DHC", "DHK", "RS", "SIG", "D"} /\ m.v = 3
         THEN {T("st-other", [m EXCEPT !.st = 3]), T("rt-other", [m EXCEPT !.rt = 3]), T("st-invalid", [m EXCEPT !.st = -1])} ELSE {})
 
-Forged(p) ==
+ForgedV(p, v) ==
   LET s == st[p]
-      v == IF s.ver = 0 THEN 3 ELSE s.ver
       hdr == [v |-> v, st |-> IF v = 3 THEN 3 ELSE 0, rt |-> IF v = 3 THEN s.otag ELSE 0]
       T(k, mm) == [k |-> k, m |-> mm]
   IN {T("f-dhc", [t |-> "DHC", v |-> hdr.v, st |-> hdr.st, rt |-> hdr.rt, enc |-> EId, hash |-> EId]),
@@ -284,6 +283,9 @@ Forged(p) ==
             xs |-> [ok |-> TRUE, kind |-> "R", s1 |-> EId, s2 |-> s.ax, pub |-> who, kid |-> 1, sig |-> (who = "E")]]) : who \in {"E", Other(p)}}
      \cup {T("f-sig-" \o who, [t |-> "SIG", v |-> hdr.v, st |-> hdr.st, rt |-> hdr.rt,
             xs |-> [ok |-> TRUE, kind |-> "S", s1 |-> EId, s2 |-> s.ax, pub |-> who, kid |-> 1, sig |-> (who = "E")]]) : who \in {"E", Other(p)}}
+
+\* E speaks the version the conversation is bound to, or either version while none is decided
+Forged(p) == UNION {ForgedV(p, v) : v \in (IF st[p].ver = 0 THEN {2, 3} ELSE {st[p].ver})}
 
 \* what E is told is not delivered to the genuine peer
 AttackerDeliver(p) ==
@@ -299,7 +301,7 @@ AttackerDeliver(p) ==
            /\ ksess' = [ksess EXCEPT ![p] = IF \E i \in DOMAIN r.evs : r.evs[i] \in {"sec:GoneSecure", "sec:StillSecure"} THEN r.s.sess ELSE @]
            /\ delivered' = [delivered EXCEPT ![p] = IF r.plain # NoText THEN Append(@, <<r.plain, ~Unflagged(r)>>) ELSE @]
            /\ atkplain' = atkplain + (IF r.plain # NoText /\ Unflagged(r) /\ m.t = "D" /\ m.mac = <<0, 0>> THEN 1 ELSE 0)
-           /\ path' = IF Export THEN Append(path, [a |-> "Attack", p |-> p, f |-> c.k, i |-> c.i, q |-> hi]) ELSE path
+           /\ path' = IF Export THEN Append(path, [a |-> "Attack", p |-> p, f |-> c.k, i |-> c.i, q |-> hi, z |-> c.m.v]) ELSE path
   /\ budget' = [budget EXCEPT !.atk = @ - 1]
   /\ UNCHANGED <<net, nt, nsend, pc, order, phase, accepted, rejects, used, disclosedEver, leaks, txlog, nrun, smplog>>
 
